@@ -429,6 +429,33 @@ func runC20(c *eng.Ctx) {
 		g := p.GraphOf(lh)
 		hookPath := lh.Obj.Type().(*types.Signature).Params().At(0)
 		entryOK := len(call.Args) == 5 && eng.SelObj(info, call.Args[2]) == hookPath
+		if !entryOK && len(call.Args) == 5 {
+			// hook.Path of the hook that was just made by NewHook(name, hookPath, ...): NewHook stores its second
+			// parameter in Path and nothing else writes that field
+			pathFld := p.Field(pkgHook, "Hook", "Path")
+			newHook, _ := p.Object(pkgHook, "NewHook").(*types.Func)
+			if sel, isS := ast.Unparen(call.Args[2]).(*ast.SelectorExpr); isS && pathFld != nil && newHook != nil && eng.IsField(info, sel, pathFld) {
+				mk, isC := ast.Unparen(resolveLocal(info, lh.Decl.Body, sel.X)).(*ast.CallExpr)
+				stored := false
+				if nh := p.FuncOf(newHook); nh != nil && nh.Obj.Type().(*types.Signature).Params().Len() >= 2 {
+					prm2 := nh.Obj.Type().(*types.Signature).Params().At(1)
+					ast.Inspect(nh.Decl.Body, func(n ast.Node) bool {
+						if cl, isL := n.(*ast.CompositeLit); isL {
+							if v := litKeyValue(nh.Pkg.TypesInfo, cl, pathFld); v != nil && eng.SelObj(nh.Pkg.TypesInfo, v) == types.Object(prm2) {
+								stored = true
+							}
+						}
+						return true
+					})
+					for _, ref := range p.Refs(pathFld) {
+						if ref.Write && (ref.In == nil || ref.In != nh) {
+							stored = false
+						}
+					}
+				}
+				entryOK = isC && stored && isCallTo(info, mk, newHook) && len(mk.Args) >= 2 && eng.SelObj(info, mk.Args[1]) == hookPath
+			}
+		}
 		r4.Check(!inLoop && argOK && entryOK, lh.Key+" --config-call", call.Pos(), "one call outside loops with [\"--config\"] on the hook's path", fmt.Sprintf("the --config run is not `once, with exactly [\"--config\"], on the hook's own path` (inLoop=%v args=%v entrypoint=%v)", inLoop, argOK, entryOK))
 		// R5
 		namesHook := func(ret *ast.ReturnStmt) bool {
